@@ -902,3 +902,84 @@ func extDurationSeconds(fr *frame, args []value) value {
 }
 
 var _ = unsafe.Pointer(nil)
+
+// ---- strings.Trim* with a concrete cutset ----
+
+func (x *pathCtx) inCutset(b value, cutset string) bool {
+	if c, ok := b.(byte); ok {
+		return strings.IndexByte(cutset, c) >= 0
+	}
+	t := x.lift(b)
+	acc := x.tt.Bool(false)
+	for k := 0; k < len(cutset); k++ {
+		acc = x.tt.Or(acc, x.tt.Eq(t, x.tt.BV(8, uint64(cutset[k]))))
+	}
+	return x.decideBool(acc, "cutset")
+}
+
+func asciiOnly(s string) bool {
+	for i := 0; i < len(s); i++ {
+		if s[i] >= utf8.RuneSelf {
+			return false
+		}
+	}
+	return true
+}
+
+func extTrim(left, right bool) externalFn {
+	return func(fr *frame, args []value) value {
+		cut := concStr(args[1], "strings.Trim cutset")
+		if s, ok := args[0].(string); ok {
+			switch {
+			case left && right:
+				return strings.Trim(s, cut)
+			case left:
+				return strings.TrimLeft(s, cut)
+			default:
+				return strings.TrimRight(s, cut)
+			}
+		}
+		if !asciiOnly(cut) {
+			panic(unsupported("strings.Trim with non-ASCII cutset on symbolic string"))
+		}
+		b := strBytes(args[0])
+		lo, hi := 0, len(b)
+		x := fr.i.x
+		if right {
+			// a byte >= 0x80 is never in an ASCII cutset, so bytewise
+			// scanning agrees with the rune-wise library loop
+			for hi > lo && x.inCutset(b[hi-1], cut) {
+				hi--
+			}
+		}
+		if left {
+			for lo < hi && x.inCutset(b[lo], cut) {
+				lo++
+			}
+		}
+		return mkStr(b[lo:hi])
+	}
+}
+
+func init() {
+	externals["strings.TrimRight"] = extTrim(false, true)
+	externals["strings.TrimLeft"] = extTrim(true, false)
+	externals["strings.Trim"] = extTrim(true, true)
+	externals["strings.TrimSpace"] = func(fr *frame, args []value) value {
+		if s, ok := args[0].(string); ok {
+			return strings.TrimSpace(s)
+		}
+		// ASCII white space only; bytes >= 0x80 would need Unicode space
+		// classification, which the model does not attempt
+		b := strBytes(args[0])
+		x := fr.i.x
+		for _, e := range b {
+			if s, ok := e.(sym); ok {
+				if x.decideBool(x.tt.BVCmp("bvule", x.tt.BV(8, 0x80), s.t), "TrimSpace non-ascii") {
+					panic(unsupported("strings.TrimSpace on non-ASCII symbolic byte"))
+				}
+			}
+		}
+		return extTrim(true, true)(fr, []value{args[0], "\t\n\v\f\r "})
+	}
+}
